@@ -147,6 +147,32 @@ Theorem C06_sqdist_close : forall t a b, 0 <= t -> sqdist a b <= t * t -> length
 Proof. exact sqdist_close. Qed.
 Print Assumptions C06_sqdist_close.
 
+(* ---- resolution_size = R > 1: an event is R consecutive smeared samples, the log is taken per event ---- *)
+
+(* R = 1: the resolution formula is the plain formula (value of nll_grad and BaseModel.nll), also for vanishing weights *)
+Theorem C06_nll_res_R1 : forall ext w f v g,
+  nll_gradval_res ext (chunk 1 w) (chunk 1 f) v g = nll_gradval ext w f v g /\
+  nll_base_res ext (chunk 1 w) (chunk 1 f) v g = nll_base ext w f v g.
+Proof. exact nll_res_R1. Qed.
+Print Assumptions C06_nll_res_R1.
+
+(* batch independence still holds for ANY split into batches of whole events *)
+Theorem C06_nll_res_batch_independent : forall ext bd bm, ev_batches_ok bd -> batches_ok bm ->
+  nll_gradval_res_batched ext bd bm
+  = nll_gradval_res ext (concat (map fst bd)) (concat (map snd bd)) (concat (map fst bm)) (concat (map snd bm)).
+Proof. exact nll_res_batch_independent. Qed.
+Print Assumptions C06_nll_res_batch_independent.
+
+Theorem C06_rsum_ev_weights : forall we, rsum (ev_weights we) = rsum (concat we).
+Proof. exact rsum_ev_weights. Qed.
+Print Assumptions C06_rsum_ev_weights.
+
+(* correspondence helper: one interval goal certifies that no event weight vanishes (zero guard inactive) *)
+Theorem C06_ev_density_cert : forall c we fe,
+  0 < c -> shortfall c (sqs (ev_weights we)) <= c / 2 -> ev_density we fe = ev_density_nz we fe.
+Proof. exact ev_density_cert. Qed.
+Print Assumptions C06_ev_density_cert.
+
 (* non-vacuity: the hypotheses are satisfiable (mixed-sign weights, densities above the threshold) *)
 Example C06_example_hyps :
   let w := blend [1; -1/2; 2] (bg_const_weights (1/4) 2) in
